@@ -150,6 +150,33 @@ func dsSites(root *hx.Val) []dsSite {
 	return out
 }
 
+// dsRefNodes lists the reference nodes (maps whose type_id is "ref") of a description, in walk order.
+func dsRefNodes(root *hx.Val) []*hx.Val {
+	var out []*hx.Val
+	root.Walk(func(x *hx.Val) {
+		if x.Kind != "m" {
+			return
+		}
+		for _, kv := range x.M {
+			if kv[0].Kind == "s" && kv[0].S == "type_id" && kv[1].Kind == "s" && kv[1].S == "ref" {
+				out = append(out, x)
+			}
+		}
+	})
+	return out
+}
+
+// dsSetField sets (or adds) a string-keyed entry of a map node.
+func dsSetField(m *hx.Val, key string, v *hx.Val) {
+	for i, kv := range m.M {
+		if kv[0].Kind == "s" && kv[0].S == key {
+			m.M[i][1] = v
+			return
+		}
+	}
+	m.M = append(m.M, [2]*hx.Val{hx.Str(key), v})
+}
+
 // dsObjectIDs lists the keys of every "objects" map in the description.
 func dsObjectIDs(root *hx.Val) []string {
 	seen := map[string]bool{}
@@ -376,7 +403,7 @@ type dsUse struct {
 
 // lines the child prints (one JSON object each)
 type dsChildLine struct {
-	Kind string     `json:"kind"` // start | load | use-start | use | done | hang
+	Kind string     `json:"kind"` // start | load | check | use-start | use | done | hang
 	ID   int        `json:"id"`
 	Load *hx.Result `json:"load,omitempty"`
 	Use  *dsUse     `json:"use,omitempty"`
@@ -510,6 +537,10 @@ func dsExercise(w dsWork, scopes map[string]schema.Type, again any, say func(dsC
 	}
 	for _, l := range labels {
 		sc := scopes[l]
+		// the returned scope must be completely linked, whether or not an input reaches every part
+		for _, problem := range dsLinkProblems(sc) {
+			say(dsChildLine{Kind: "check", ID: w.ID, What: "scope " + strconv.Quote(l) + ": " + problem})
+		}
 		t := trees[l]
 		if t == nil {
 			say(dsChildLine{Kind: "use", ID: w.ID, What: "description of a returned scope cannot be parsed: " + l})
@@ -525,7 +556,12 @@ func dsExercise(w dsWork, scopes map[string]schema.Type, again any, say func(dsC
 			}()
 			return g.Value(ft, hx.Env{}, 0)
 		}
-		inputs := []*hx.Val{value(), value(), g.RandomVal(0), hx.Int("int64", 5), hx.StrAny()}
+		nCover := 3
+		inputs := []*hx.Val{}
+		for i := 0; i < nCover; i++ {
+			inputs = append(inputs, dsCover(g, t, map[string]*dsTy{}, map[string]int{}, i, 0))
+		}
+		inputs = append(inputs, value(), g.RandomVal(0), hx.Int("int64", 5), hx.StrAny())
 		first := true
 		run := func(op string, v *hx.Val, goVal any, useGo bool) (hx.Result, any) {
 			u := &dsUse{Scope: l, Op: op, V: v}
@@ -550,7 +586,7 @@ func dsExercise(w dsWork, scopes map[string]schema.Type, again any, say func(dsC
 		for i, in := range inputs {
 			ru, native := run("U", in, nil, false)
 			run("C", in, nil, false)
-			if i >= 2 {
+			if i < nCover || i >= nCover+1 {
 				run("V", in, nil, false)
 				run("S", in, nil, false)
 			}
@@ -561,6 +597,153 @@ func dsExercise(w dsWork, scopes map[string]schema.Type, again any, say func(dsC
 			}
 		}
 	}
+}
+
+// dsLinkProblems checks a returned scope structurally: ValidateReferences must succeed, and every
+// reference anywhere in it (objects of every scope, nested scopes, properties, list items, map keys
+// and values, one-of members) must be linked.
+func dsLinkProblems(sc schema.Type) (problems []string) {
+	defer func() {
+		if r := recover(); r != nil {
+			problems = append(problems, fmt.Sprintf("inspecting the returned schema panicked: %v", r))
+		}
+	}()
+	if err := sc.ValidateReferences(); err != nil {
+		problems = append(problems, "ValidateReferences of the returned schema fails: "+err.Error())
+	}
+	var walk func(t schema.Type, path string)
+	walk = func(t schema.Type, path string) {
+		switch x := t.(type) {
+		case *schema.RefSchema:
+			if !x.ObjectReady() {
+				problems = append(problems, fmt.Sprintf("unlinked reference to %q in namespace %q at %s", x.ID(), x.Namespace(), path))
+			}
+		case *schema.ScopeSchema:
+			ids := make([]string, 0, len(x.Objects()))
+			for id := range x.Objects() {
+				ids = append(ids, id)
+			}
+			sort.Strings(ids)
+			for _, id := range ids {
+				walk(x.Objects()[id], path+"/objects/"+id)
+			}
+		case *schema.ObjectSchema:
+			names := make([]string, 0, len(x.PropertiesValue))
+			for n := range x.PropertiesValue {
+				names = append(names, n)
+			}
+			sort.Strings(names)
+			for _, n := range names {
+				if p := x.PropertiesValue[n]; p != nil && p.TypeValue != nil {
+					walk(p.TypeValue, path+"/"+n)
+				} else {
+					problems = append(problems, "nil property or property type at "+path+"/"+n)
+				}
+			}
+		case *schema.ListSchema:
+			walk(x.ItemsValue, path+"/items")
+		case *schema.MapSchema[schema.Type, schema.Type]:
+			walk(x.KeysValue, path+"/keys")
+			walk(x.ValuesValue, path+"/values")
+		case *schema.OneOfSchema[string]:
+			keys := make([]string, 0, len(x.TypesValue))
+			for k := range x.TypesValue {
+				keys = append(keys, k)
+			}
+			sort.Strings(keys)
+			for _, k := range keys {
+				walk(x.TypesValue[k], path+"/types/"+k)
+			}
+		case *schema.OneOfSchema[int64]:
+			keys := make([]int64, 0, len(x.TypesValue))
+			for k := range x.TypesValue {
+				keys = append(keys, k)
+			}
+			sort.Slice(keys, func(i, j int) bool { return keys[i] < keys[j] })
+			for _, k := range keys {
+				walk(x.TypesValue[k], path+"/types/"+strconv.FormatInt(k, 10))
+			}
+		}
+	}
+	walk(sc, "")
+	if len(problems) > 4 {
+		problems = problems[:4]
+	}
+	return problems
+}
+
+// dsCover builds an input from the structure of the returned schema itself that supplies EVERY
+// property of every object it reaches - also of the objects reached through references - so that
+// each part of the schema is entered at least once. Objects on the current path are entered at most
+// twice (recursive references); `choice` selects which member of each one-of is taken. Scalars come
+// from the type-directed generator.
+func dsCover(g *hx.Gen, t *dsTy, env map[string]*dsTy, onPath map[string]int, choice int, depth int) *hx.Val {
+	if t == nil || depth > 12 {
+		return hx.StrAny()
+	}
+	switch t.T {
+	case "list":
+		return hx.List(dsCover(g, t.Item, env, onPath, choice, depth+1))
+	case "map":
+		k := dsCover(g, t.K, env, onPath, choice, depth+1)
+		if k.Kind == "f" || k.Kind == "b" || k.Kind == "nil" {
+			k = hx.Str("k")
+		}
+		return hx.AnyAny([2]*hx.Val{k, dsCover(g, t.V, env, onPath, choice, depth+1)})
+	case "obj":
+		m := hx.StrAny()
+		for _, np := range t.Props {
+			m.M = append(m.M, [2]*hx.Val{hx.Str(np.Name), dsCover(g, np.P.Ty, env, onPath, choice, depth+1)})
+		}
+		return m
+	case "ref":
+		o, ok := env[t.ID]
+		if !ok || t.NS != "" || onPath[t.ID] >= 2 {
+			return hx.StrAny() // nothing known about the target: any map enters the reference
+		}
+		onPath[t.ID]++
+		v := dsCover(g, o, env, onPath, choice, depth+1)
+		onPath[t.ID]--
+		return v
+	case "scope":
+		env2 := map[string]*dsTy{}
+		for _, o := range t.Objs {
+			env2[o.ID] = o.Ty
+		}
+		root, ok := env2[t.Root]
+		if !ok {
+			return hx.StrAny()
+		}
+		return dsCover(g, root, env2, map[string]int{t.Root: 1}, choice, depth+1)
+	case "oneOf":
+		if len(t.Members) == 0 {
+			return hx.StrAny()
+		}
+		mb := t.Members[choice%len(t.Members)]
+		v := dsCover(g, mb.Ty, env, onPath, choice, depth+1)
+		if v.Kind != "m" {
+			v = hx.StrAny()
+		}
+		var d *hx.Val = hx.Str(mb.Key)
+		if t.IntKey {
+			n, _ := strconv.ParseInt(mb.Key, 10, 64)
+			d = hx.Int("int64", n)
+		}
+		dsSetField(v, t.Disc, d)
+		v.MK, v.MVA = "string", true
+		return v
+	}
+	// scalars and `any`: the type-directed generator (it assumes generated schemas)
+	var v *hx.Val
+	func() {
+		defer func() {
+			if r := recover(); r != nil {
+				v = hx.Str("x")
+			}
+		}()
+		v = g.Value(t.forget(), hx.Env{}, 4)
+	}()
+	return v
 }
 
 // ---------------------------------------------------------------------------------------------
@@ -614,6 +797,32 @@ func dsRebuildCmd(a Args) {
 			c := dsCopyVal(desc)
 			note := dsApply(g, c, dsSites(c)[si])
 			add(mode, c, kind+": "+note)
+		}
+		// targeted: every reference of the description, at whatever depth (objects other than the root,
+		// under lists, maps and one-of members), is in turn moved to a foreign namespace, given an
+		// ill-typed namespace, and re-pointed to a missing object
+		nRefs := len(dsRefNodes(desc))
+		s.stats["refs:"+kind] += nRefs
+		refIdx := g.R.Perm(nRefs)
+		if !thorough && len(refIdx) > 6 {
+			refIdx = refIdx[:6]
+		}
+		for n, ri := range refIdx {
+			c := dsCopyVal(desc)
+			node := dsRefNodes(c)[ri]
+			var note string
+			switch {
+			case n%3 == 2:
+				dsSetField(node, "id", hx.Str("Nope"))
+				note = "ref-dangle"
+			case n%6 == 4:
+				dsSetField(node, "namespace", []*hx.Val{hx.Int("int64", 7), hx.Nil(), hx.List()}[g.R.Intn(3)])
+				note = "ref-namespace-retype"
+			default:
+				dsSetField(node, "namespace", hx.Str([]string{"other", "ext", " "}[g.R.Intn(3)]))
+				note = "ref-namespace"
+			}
+			add(mode, c, kind+": "+note+" (reference "+strconv.Itoa(ri)+")")
 		}
 		for i := 0; i < doubles; i++ {
 			c := dsCopyVal(desc)
@@ -735,6 +944,23 @@ func dsWitnessesC10(add func(mode string, v *hx.Val, note string)) {
 		return m(kv("name_short_singular", S(n)), kv("name_short_plural", S(n)), kv("name_long_singular", S(n+"l")), kv("name_long_plural", S(n+"ls")))
 	}
 	add("scope", scope("A", kv("A", obj("A", kv("c", prop(m(kv("type_id", S("integer")), kv("units", m(kv("base_unit", unit("b")), kv("multipliers", hx.AnyAny([2]*hx.Val{hx.Int("int64", -5), unit("k")}))))))), kv("d", prop(strT))))), "witness: negative unit multiplier")
+	// references that cannot be linked, away from the root object: in a non-root object, under a list,
+	// under a map, as a one-of member
+	nsref := func(id, ns string) *hx.Val { return m(kv("type_id", S("ref")), kv("id", S(id)), kv("namespace", S(ns))) }
+	opt := kv("required", hx.Bool(false))
+	child := func(leaf *hx.Val) *hx.Val {
+		return scope("Root", kv("Root", obj("Root", kv("child", prop(ref("Child"), opt)), kv("x", prop(strT, opt)))),
+			kv("Child", obj("Child", kv("leaf", prop(leaf, opt)), kv("y", prop(strT, opt)))),
+			kv("T", obj("T", kv("z", prop(strT, opt)))))
+	}
+	add("scope", child(nsref("T", "other")), "witness: foreign-namespace reference in a non-root object")
+	add("scope", child(m(kv("type_id", S("list")), kv("items", nsref("T", "other")))), "witness: foreign-namespace reference under a list in a non-root object")
+	add("scope", child(m(kv("type_id", S("map")), kv("keys", strT), kv("values", nsref("T", "other")))), "witness: foreign-namespace reference under a map in a non-root object")
+	add("scope", child(m(kv("type_id", S("one_of_string")), kv("discriminator_field_name", S("t")), kv("types", m(kv("a", nsref("T", "other")))))), "witness: foreign-namespace reference as a one-of member in a non-root object")
+	add("scope", child(ref("Nope")), "witness: dangling reference in a non-root object")
+	okOut := m(kv("schema", scope("O", kv("O", obj("O")))))
+	stepS := m(kv("id", S("s")), kv("input", child(nsref("T", "other"))), kv("outputs", m(kv("ok", okOut))))
+	add("schema", m(kv("steps", m(kv("s", stepS)))), "witness: foreign-namespace reference in a non-root object of a step input")
 	// known finding D13: recursion that does not consume input
 	add("scope", scope("A", kv("A", obj("A", kv("n", prop(ref("A"), kv("required", hx.Bool(false)), kv("default", S("{}"))))))), "witness D13: default re-enters its own object")
 	add("scope", scope("A", kv("A", obj("A", kv("next", prop(ref("A"), kv("required", hx.Bool(false))))))), "witness D13: single-property object referring to itself")
@@ -825,11 +1051,14 @@ func dsSupervise(s *dsSink, work []dsWork, workPath string) {
 				}
 				u := pending
 				pending = nil
-				id := s.emit(dsCase{Op: u.Op, Schema: ft, V: u.V, Ext: hx.MkExt(ft, u.V), Fuel: 400, Note: "use of " + w.Note}, l.Use.Res)
+				id := s.emit(dsCase{Op: u.Op, Schema: (*dsHxTy)(ft), V: u.V, Ext: hx.MkExt(ft, u.V), Fuel: 400, Note: "use of " + w.Note}, l.Use.Res)
 				s.count("use:" + u.Op + ":" + l.Use.Res.R)
 				if l.Use.Res.R == "panic" {
-					s.finding(dsFinding{Prop: "C10", What: "operation " + u.Op + " on a returned schema panicked: " + l.Use.Res.Msg, Cases: []int{loadCase, id}, Schema: ft, Input: u.V, Detail: []string{w.Note}})
+					s.finding(dsFinding{Prop: "C10", What: "operation " + u.Op + " on a returned schema panicked: " + l.Use.Res.Msg, Cases: []int{loadCase, id}, Schema: (*dsHxTy)(ft), Input: u.V, Detail: []string{w.Note}})
 				}
+			case "check":
+				s.count("link-problem")
+				s.finding(dsFinding{Prop: "C10", What: "a returned schema is not completely linked: " + l.What, Cases: []int{loadCase}, Input: w.V, Detail: []string{w.Note}})
 			case "done":
 				doneUpTo = l.ID + 1
 				finishItem()
@@ -866,7 +1095,7 @@ func dsSupervise(s *dsSink, work []dsWork, workPath string) {
 			}
 			s.finding(dsFinding{Prop: "C10", What: what + " (" + w.Mode + ")", Cases: []int{id}, Input: w.V, Detail: []string{w.Note, dsLastLines(tail, 6)}})
 		case pending != nil:
-			id := s.emit(dsCase{Op: pending.Op, Schema: ft, V: pending.V, Ext: hx.MkExt(ft, pending.V), Fuel: 400, Note: "use of " + w.Note}, hx.Result{R: "fuel", Msg: "child died"})
+			id := s.emit(dsCase{Op: pending.Op, Schema: (*dsHxTy)(ft), V: pending.V, Ext: hx.MkExt(ft, pending.V), Fuel: 400, Note: "use of " + w.Note}, hx.Result{R: "fuel", Msg: "child died"})
 			switch {
 			case overflow && !exit3:
 				// infinite recursion on a finite input: the recursion does not consume input. This is the
@@ -875,11 +1104,11 @@ func dsSupervise(s *dsSink, work []dsWork, workPath string) {
 				s.count("known:D13-stack-overflow-on-use")
 				s.count("known:D13:" + pending.Op)
 				s.finding(dsFinding{Prop: "C10", What: "known finding D13: operation " + pending.Op + " on a returned schema overflowed the stack (recursion through a reference that does not consume input)",
-					Cases: []int{loadCase, id}, Schema: ft, Input: pending.V, Detail: []string{w.Note}})
+					Cases: []int{loadCase, id}, Schema: (*dsHxTy)(ft), Input: pending.V, Detail: []string{w.Note}})
 			case exit3:
-				s.finding(dsFinding{Prop: "C10", What: "operation " + pending.Op + " on a returned schema did not return within " + dsCaseTimeout.String(), Cases: []int{loadCase, id}, Schema: ft, Input: pending.V, Detail: []string{w.Note}})
+				s.finding(dsFinding{Prop: "C10", What: "operation " + pending.Op + " on a returned schema did not return within " + dsCaseTimeout.String(), Cases: []int{loadCase, id}, Schema: (*dsHxTy)(ft), Input: pending.V, Detail: []string{w.Note}})
 			default:
-				s.finding(dsFinding{Prop: "C10", What: "operation " + pending.Op + " on a returned schema crashed the process", Cases: []int{loadCase, id}, Schema: ft, Input: pending.V, Detail: []string{w.Note, dsLastLines(tail, 6)}})
+				s.finding(dsFinding{Prop: "C10", What: "operation " + pending.Op + " on a returned schema crashed the process", Cases: []int{loadCase, id}, Schema: (*dsHxTy)(ft), Input: pending.V, Detail: []string{w.Note, dsLastLines(tail, 6)}})
 			}
 		default:
 			s.finding(dsFinding{Prop: "C10", What: "the process died between operations", Cases: []int{loadCase}, Input: w.V, Detail: []string{w.Note, dsLastLines(tail, 6)}})
